@@ -54,6 +54,15 @@ def cases(tier, seed):
     for fam, grid in DISC_GRID.items():
         for ps in grid:
             out.append({"input": {"kind": "dist", "family": fam, "params": ps}, "K": K})
+    # two parameterisations of one family that differ in a single parameter, evaluated in ONE process in both orders
+    # (moment caches must be keyed on all parameters)
+    for fam, a, b in [("Beta", ["2", "3"], ["2", "3", "10"]), ("Beta", ["2", "3", "4"], ["2", "5", "4"]), ("Normal", ["0", "1"], ["0", "4"]),
+                      ("Normal", ["1", "1"], ["2", "1"]), ("Uniform", ["0", "1"], ["0", "2"]), ("Laplace", ["0", "1"], ["0", "2"]),
+                      ("Laplace", ["0", "1"], ["1", "1"]), ("DistExp", ["1"], ["2"]), ("Gamma", ["2", "1"], ["2", "3"]),
+                      ("Gamma", ["2", "1"], ["3", "1"]), ("DiscreteUniform", ["0", "2"], ["0", "3"]), ("DiscreteUniform", ["0", "2"], ["1", "2"]),
+                      ("Categorical", ["1/2", "1/2"], ["1/4", "3/4"]), ("Bernoulli", ["1/2"], ["1/3"]),
+                      ("TruncNormal", ["0", "1", "-1", "1"], ["0", "1", "-1", "2"])]:
+        out.append({"input": {"kind": "cachepair", "family": fam, "a": a, "b": b}, "K": 4})
     # location / scale rewriting
     for fam, exprs in {"Normal": [["v", "1"], ["2*v + 1", "4"], ["v", "2"], ["0", "v"], ["v", "v"]],
                        "Uniform": [["v", "v + 1"], ["0", "v"], ["-v", "2*v"]],
@@ -71,9 +80,52 @@ def to_mp(x):
     return mp.mpmathify(sympy.N(sympy.sympify(str(x)), 50))
 
 
+def run_cachepair(case):
+    import mpmath as mp
+    from program.distribution import distribution_factory
+
+    mp.mp.dps = 50
+    inp = case["input"]
+    fam = inp["family"]
+    stats = {"evaluations": 0, "refusals": {}, "distinct_nontrivial": 1}
+    res = {"status": "ok", "stats": stats, "violations": [], "sample": dict(inp)}
+    for order in ((inp["a"], inp["b"], inp["a"]), (inp["b"], inp["a"], inp["b"])):
+        for ps in order:
+            try:
+                dist = distribution_factory(fam, list(ps))
+            except Exception as e:
+                stats["refusals"]["construct:" + exc_name(e)] = 1
+                continue
+            psf = [F(p) for p in ps]
+            for k in range(1, case["K"] + 1):
+                try:
+                    got = dist.get_moment(k)
+                except Exception as e:
+                    stats["refusals"]["moment:" + exc_name(e)] = 1
+                    continue
+                want = dists.exact_moment(fam, psf, k)
+                wv = (mp.mpf(want.numerator) / want.denominator) if want is not None else dists.numeric_expect(fam, psf, lambda x: x ** k)
+                stats["evaluations"] += 1
+                tol = mp.mpf("1e-9") if fam == "TruncNormal" else mp.mpf("1e-25")
+                if abs(to_mp(got) - wv) > tol * max(1, abs(wv)):
+                    res["violations"].append({"sub": "moment-after-other-parameters",
+                                              "detail": {"family": fam, "params": ps, "evaluated_after": [x for x in order], "k": k,
+                                                         "polar": str(got), "true": mp.nstr(wv, 20)}})
+                    break
+            if res["violations"]:
+                break
+        if res["violations"]:
+            break
+    if res["violations"]:
+        res["status"] = "violation"
+    return res
+
+
 def run_case(case):
     if case["input"]["kind"] == "transform":
         return run_transform(case)
+    if case["input"]["kind"] == "cachepair":
+        return run_cachepair(case)
     import mpmath as mp
     import sympy
     from program.distribution import distribution_factory
